@@ -14,6 +14,9 @@ and then `broadcastForBinaryOp`/`broadcastForMatMul`, whose `Broadcast` calls ru
 `err` (kernel-checked below). So the theorems here are three-way and exhaustive:
 validator rejects → `err`; validator accepts, broadcast validator rejects → `err`; both accept → `ok`, well formed.
 That is the C09 property in full (see also the `…_never_panic` corollaries).
+Checked against the real library (scratch Go test, 2026-09-29): `Dot` on `[2,3]·[4,3]`, `MatMul` on `[2,1,1]×[3,1,1]` and `Add`
+on `[2]+[3]` all return "… tensors' broadcasting failed: …" errors, no panic; `FC.Forward` with `Weight = nil` panics and with
+`Bias = nil` returns an error (see `fcForward_nil_weight_panics`).
 -/
 set_option linter.unusedSimpArgs false
 set_option linter.unusedSectionVars false
@@ -362,7 +365,6 @@ theorem vMatMul_total [Scalar α] (a b : Tensor α) (ha : a.WF) (hb : b.WF) :
     · rw [hTdd, e1, e2]
       simp [List.dropLast_cons_of_ne_nil]
   · intro hv hbc
-    obtain ⟨r1, r2, m, n, k, e1, e2⟩ := validMatMul_shape a.dims b.dims hv
     have hposT := targetBroadcastDims_pos a.dims b.dims ha.2 hb.2
     -- the two target shapes are of positive sizes
     have hposMS : ∀ (own : List Nat), (∀ d ∈ own, 0 < d) →
